@@ -17,6 +17,7 @@ import sys
 import time
 import traceback
 
+sys.setrecursionlimit(20000)
 VERIF = os.path.dirname(os.path.dirname(os.path.abspath(__file__)))
 if VERIF not in sys.path:
     sys.path.insert(0, VERIF)
